@@ -354,8 +354,8 @@ def rule_map_pure(ctx, prog, chk):
 def analyse(ctx, prog, chk):
     chk.used_program(prog)
     from . import c13_def
-    nd, nh = c13_def.analyse(ctx, prog, chk)
-    return {"maps": rule_map_cof(ctx, prog, chk), "cof": rule_cof_shape(ctx, prog, chk), "pure": rule_map_pure(ctx, prog, chk), "def": nd, "hist": nh}
+    nd, nh, nrs = c13_def.analyse(ctx, prog, chk)
+    return {"maps": rule_map_cof(ctx, prog, chk), "cof": rule_cof_shape(ctx, prog, chk), "pure": rule_map_pure(ctx, prog, chk), "def": nd, "hist": nh, "rhs": nrs}
 
 
 def selfcheck(ctx, prog, chk):
@@ -368,6 +368,7 @@ def run(ctx, chk):
     chk.floor("COF-ID", "cofactor routines and their multiplications", c["cof"], 6)
     chk.floor("MAP-PURE", "map implementations and wrappers", c["pure"], 12)
     chk.floor("MAP-DEF", "map implementations and wrappers", c["def"], 12)
+    chk.floor("RHS-SHAPE", "Horner evaluations of the curve polynomial", c["rhs"], 2)
     chk.floor("MAP-HIST", "self-updates of map-related context fields", c["hist"], 2)
     for cfg in ("P255", "P381"):
         analyse(ctx, ctx.program(cfg), chk)
